@@ -252,7 +252,8 @@ class Engine:
                     model = self._extract_model(self.finite_model())
                 else:
                     st, backend = ext_st, ext_backend
-                if st == 'refuted' and model is None:
+                if st == 'refuted' and model is None and not canary:
+                    # (a canary only needs "satisfiable": a CLI `sat` is enough to show that the path is not vacuous)
                     st = 'unknown'   # no model in hand from the CLI: never report as a violation
                     backend += '(sat-without-model)'
             if st != 'proved' and not smt:
